@@ -183,8 +183,8 @@ EXPECTED = {
     'r2q': ['not base.isrot(R, check=check, tol=tol)', 'np.trace(R) > 0', 'R[0, 0] >= R[1, 1] and R[0, 0] >= R[2, 2]', 'R[1, 1] >= R[2, 2]',
             'v9', 'abs(v11) < tol * _eps'],
     'trinterp': ['base.ismatrix(end, (3, 3))', 'start is None', 'base.ismatrix(end, (4, 4))', 'start is None'],
-    'interp': ['not base.isscalar(s)', 'dest is not None', 'assert isinstance(dest, UnitQuaternion)', 's == 0', 's == 1', 's == 0', 's == 1',
-               'assert 0 <= s <= 1', 'shortest', 'v3 < 0', 'v4 == 0'],
+    'interp': ['not base.isscalar(s)', 'len(s) > 1', 'assert len(self) == 1', 'len(self) > 1', 'dest is not None', 'assert isinstance(dest, UnitQuaternion)',
+               's == 0', 's == 1', 's == 0', 's == 1', 'assert 0 <= s <= 1', 'shortest', 'v4 < 0', 'v5 == 0'],
 }
 
 
@@ -199,12 +199,13 @@ EXPECTED_SIG = {
     # trinterp: its own range test on s (and the constants in it) is executed concolically (pc_trinterp_*), not fixed here: slerp checks the range too
     'trinterp': (['base.ismatrix(end, (3, 3))', 'base.ismatrix(end, (4, 4))', 'start is None'], None,
                  ['ValueError', 'base.eye', 'base.ismatrix', 'base.q2r', 'base.r2q', 'base.rt2tr', 'base.slerp', 'base.t2r', 'transl']),
-    # UnitQuaternion.interp since fix 51bc88a: a dispatch on `not base.isscalar(s)` (comprehension over the scalar path) in front of the scalar path,
-    # which is what the model covers; the sequence form is verified by the oracle element by element
-    'interp': (['0 <= s <= 1', '_v < 0', '_v == 0', 'assert 0 <= s <= 1', 'assert isinstance(dest, UnitQuaternion)', 'dest is not None', 'not base.isscalar(s)',
-                's == 0', 's == 1', 'shortest'], ['0', '1'],
-               ['UnitQuaternion', 'base.eye', 'base.getvector', 'base.inner', 'base.isscalar', 'float', 'isinstance', 'math.acos', 'math.cos', 'math.sin', 'np.clip',
-                'self.interp']),
+    # UnitQuaternion.interp since fixes 51bc88a / 7443e8d: in front of the scalar path (which is what the model covers) a dispatch on the form of s
+    # (sequence of length > 1: one quaternion required, comprehension over the scalar path; length 1: one coefficient) and on len(self) > 1
+    # (each value interpolated); these forms are verified by the oracle element by element.  s is re-assigned there, so it appears as `_v`.
+    'interp': (['0 <= _v <= 1', '_v < 0', '_v == 0', '_v == 1', 'assert 0 <= _v <= 1', 'assert isinstance(dest, UnitQuaternion)', 'assert len(self) == 1',
+                'dest is not None', 'len(_v) > 1', 'len(self) == 1', 'len(self) > 1', 'not base.isscalar(_v)', 'shortest'], ['0', '1'],
+               ['UnitQuaternion', '_v.interp', 'base.eye', 'base.getvector', 'base.inner', 'base.isscalar', 'float', 'isinstance', 'len', 'math.acos', 'math.cos',
+                'math.sin', 'np.clip', 'self.interp']),
 }
 EXPECTED['isunitvec'] = []
 EXPECTED_SIG_ALT, EXPECTED_ALT = {}, {}
@@ -959,6 +960,43 @@ def oracle(ctx):
                         except Exception as ex:  # noqa
                             ctx.fail(f"oracle:vector-s:UnitQuaternion.interp:no-sequence:{type(ex).__name__}",
                                      f"UnitQuaternion.interp(sequence of s, {form}) raises {type(ex).__name__}: {ex}", rq)
+        if it % 5 == 0:
+            # fix 7443e8d: a sequence of ONE coefficient is that coefficient; a receiver holding M > 1 unit quaternions with one coefficient interpolates
+            # each value; M > 1 together with K > 1 coefficients is rejected (as SMPose.interp)
+            lq0, lq1 = base.r2q(R0), base.r2q(R1)
+            lq2 = r2q_ref(rot_regime(rng))
+            s1 = float(rng.uniform(0, 1))
+            multi = UnitQuaternion([lq1, lq2, lq0], check=False)
+            for sh in (False, True):
+                for with_dest in (False, True):
+                    kw = dict(dest=UnitQuaternion(lq0), shortest=sh) if with_dest else dict(shortest=sh)
+                    ends = [lq1, lq2, lq0]
+                    starts = lq0 if with_dest else np.array([1.0, 0, 0, 0])
+                    if not sh and min(float(starts @ e_) for e_ in ends) < -math.cos(1e-2):
+                        continue           # quaternion-level long arc next to antipodal: outside the domain
+                    rq = dict(rp, s=s1, shortest=sh, dest=with_dest, values_hex=[hx(e_) for e_ in ends])
+                    ctx.case(('uq-multi', it, sh, with_dest))
+                    ctx.count('oracle:multi-valued:UnitQuaternion.interp')
+                    try:
+                        singles = [UnitQuaternion(e_).interp(s1, **kw).vec for e_ in ends]
+                        for form, sarg in (('scalar', s1), ('length-1 list', [s1]), ('length-1 ndarray', np.array([s1]))):
+                            Um = multi.interp(sarg, **kw)
+                            if not (isinstance(Um, UnitQuaternion) and len(Um) == 3):
+                                ctx.fail('oracle:multi-valued:UnitQuaternion.interp:wrong-length', f"M = 3 unit quaternions, one coefficient ({form}): not 3 values", rq)
+                            elif not all(np.max(np.abs(Um.data[k_] - singles[k_])) <= 1e-9 for k_ in range(3)):
+                                ctx.fail('oracle:multi-valued:UnitQuaternion.interp:element-wrong', f"element k of X.interp(s) ({form}) is not X[k].interp(s)", rq)
+                        U1 = UnitQuaternion(lq1).interp([s1], **kw)
+                        if not (isinstance(U1, UnitQuaternion) and len(U1) == 1 and np.max(np.abs(U1.vec - singles[0])) <= 1e-9):
+                            ctx.fail('oracle:length-1-s:UnitQuaternion.interp:not-the-scalar-result', "interp([s]) is not interp(s)", rq)
+                    except Exception as ex:  # noqa
+                        ctx.fail(f"oracle:multi-valued:UnitQuaternion.interp:no-result:{type(ex).__name__}",
+                                 f"UnitQuaternion holding 3 values, one coefficient: raises {type(ex).__name__}: {ex}", rq)
+                    try:
+                        r_ = multi.interp(np.array([0.25, 0.75]), **kw)
+                        ctx.fail('oracle:multi-valued:UnitQuaternion.interp:M>1-with-K>1-accepted',
+                                 f"3 unit quaternions with 2 coefficients is accepted (returns {len(r_)} values); it must be rejected as by SMPose.interp", rq)
+                    except Exception as ex:  # noqa
+                        W.setdefault('uq-MxK-rejection-kinds', set()).add(type(ex).__name__)
         if it % 10 == 0:
             lq1 = base.r2q(R1)
             # out-of-range s is rejected by the 3-D matrix and quaternion interpolators
@@ -1100,6 +1138,8 @@ def oracle(ctx):
                 ctx.fail(f"oracle:bad-shape:{key}:accepted", f"{key} accepts {arg}", {'arg': arg, 's': 0.5})
         except Exception:  # noqa
             pass
+    if 'uq-MxK-rejection-kinds' in W:
+        W['uq-MxK-rejection-kinds'] = sorted(W['uq-MxK-rejection-kinds'])
     if 'out-of-range-kinds' in W:
         W['out-of-range-kinds'] = {k: sorted(v) for k, v in W['out-of-range-kinds'].items()}
     ctx.sample({'kind': 'oracle', 'what': 'last 3-D pair', 'T0': T0.tolist(), 'T1': T1.tolist()})
